@@ -23,8 +23,10 @@ ENVS = [
     ("plain-prefix/bundle", (("ns", "D", "ex", "A"), ("bun", "B1", ("A", "b1", S("ex")))), "B1", S("ex"), "A"),
     ("default-ns/bundle", (("def", "D", "A"), ("bun", "B1", ("A", "b1", BARE))), "B1", BARE, "A"),
     ("bundle-own-clashing-prefix",
-     (("ns", "D", "ex", "B"), ("el", "D", "entity", ("B", "top", S("ex"))), ("bun", "B1", ("C", "b1", Q("bn"))),
-      ("ns", "B1", "ex", "A")), "B1", S("ex"), "A"),
+     (("ns", "D", "ex", "B"), ("el", "D", "entity", ("B", "top", S("ex"))),
+      # the document uses the same prefixed names (attribute, datatype, value) as the bundle will, under another URI
+      ("at", ("B", "k", S("ex")), "l_exBdt"), ("at", ("B", "k", S("ex")), "q_exB"),
+      ("bun", "B1", ("C", "b1", Q("bn"))), ("ns", "B1", "ex", "A")), "B1", S("ex"), "A"),
     ("bundle-own-default",
      (("def", "D", "B"), ("el", "D", "entity", ("B", "top", BARE)), ("bun", "B1", ("C", "b1", Q("bn"))),
       ("def", "B1", "A")), "B1", BARE, "A"),
